@@ -99,6 +99,25 @@ prop("C04",
      note="trusts the reference model and its reading of the tweak-domain constant (agrees with the Arduino port, C19)",
      design_ref="DESIGN.md#c04")
 
+
+# ----------------------------------------------------------------------------- C06
+prop("C06",
+     units=lambda tier: [Unit("c06", "c06.cpp", SHIPPED, cases=scale(tier, 2500, 80000), shards=16)],
+     level="exploration",
+     rule=("unconstrained API histories (3-40 calls: init, valid and invalid key / tweaked-key / tweak / counter calls, data "
+           "calls of all sizes, NULL arguments, cleanup, use after cleanup, re-init; parallel: multiples and non-multiples of "
+           "the block size, swap_modes) on one CTR or parallel-ECB object, executed once per back end available for the kind "
+           "(generic, vec128, vec256) with the back end pinned; oracle = every return value and every output byte equal across "
+           "the twins (pure differential); non-trivial = a key/tweak change at a position that is not a batch multiple followed "
+           "by data, or an invalid call between two data calls, or data with the post-init default counter"),
+     assumptions=BUILD_ASSUME + ["host CPU offers SSE2 and AVX2 so all three back ends execute (the evidence lists which were exercised)"],
+     technique="differential property-based testing (rapidcheck): identical generated API histories on back-end-pinned twin objects",
+     text=("Pure differential search: identical generated call histories, including mid-stream key/tweak changes and invalid "
+           "calls, run on twins pinned to each back end must agree in every return value and output byte. No model involved, so "
+           "model errors cannot cause alarms. Sampling of histories, not proof."),
+     note="trusts only the pin hook (can only lower the detected back end) and the executor",
+     design_ref="DESIGN.md#c06")
+
 # ----------------------------------------------------------------------------- generic entry points
 def run(pid, tier, seed, replay):
     p = PROPS[pid]
